@@ -9,6 +9,7 @@ import (
 	"encoding/json"
 	"errors"
 	"fmt"
+	"hash/fnv"
 	"io"
 	"log/slog"
 	"net"
@@ -94,22 +95,22 @@ func AsInt(v any) int {
 // Exec is one execution: one server, one log, one or more connections.
 type Exec struct {
 	termFails bool
-	colCache map[string]wire.Columns
-	Cfg      M
-	Log      *mem.Log
-	Lis      *mem.Listener
-	Srv      *wire.Server
-	Conns    []*mem.Conn
-	Limit    int // configured message limit (bytes); 0 = library default
-	scripts  map[string]M
-	nextID   int
-	served   chan error
-	kept     []retained
-	Sched    *Sched // set when goroutines are under schedule control (C16 / C15)
-	Global   wire.Parameters
-	ctxMu    sync.Mutex
-	lastCtx  map[int]context.Context // per connection: context of the command whose callback ran last
-	prevCtx  map[int]context.Context // per connection: context of the command before that one
+	colCache  map[string]wire.Columns
+	Cfg       M
+	Log       *mem.Log
+	Lis       *mem.Listener
+	Srv       *wire.Server
+	Conns     []*mem.Conn
+	Limit     int // configured message limit (bytes); 0 = library default
+	scripts   map[string]M
+	nextID    int
+	served    chan error
+	kept      []retained
+	Sched     *Sched // set when goroutines are under schedule control (C16 / C15)
+	Global    wire.Parameters
+	ctxMu     sync.Mutex
+	lastCtx   map[int]context.Context // per connection: context of the command whose callback ran last
+	prevCtx   map[int]context.Context // per connection: context of the command before that one
 }
 
 type ctxKeyT int
@@ -529,7 +530,16 @@ func (x *Exec) parse(ctx context.Context, query string) (wire.PreparedStatements
 		if !cached {
 			for _, cv := range L(st, "cols") {
 				c := AsM(cv)
-				cols = append(cols, wire.Column{Name: S(c, "name"), Oid: oid.Oid(I(c, "oid"))})
+				col := wire.Column{Name: S(c, "name"), Oid: oid.Oid(I(c, "oid"))}
+				// applications describe their columns with a width and a type modifier as well (varchar(n),
+				// numeric(p,s)): descriptive fields - the values written are not altered to fit them
+				h := fnv.New32a()
+				h.Write([]byte(fmt.Sprintf("%s/%d", col.Name, col.Oid))) //nolint
+				if k := h.Sum32(); k%3 == 0 || k%2 == 0 {
+					col.TypeModifier = int32(5 + k%7)
+					col.Width = int16(k%9) - 1
+				}
+				cols = append(cols, col)
 			}
 			x.ctxMu.Lock()
 			if x.colCache == nil {
